@@ -28,16 +28,18 @@ UNIT = {
 # seq properties: generator profiles (profile, ops), the difference classes that count for the
 # property (model focus) and the classes of the Python reference that decide a violation
 SEQ = {
-    "C02": dict(focus=["kv"], classes=["kv"], profiles=["mixed", "binary", "layers", "fanout", "drain", "long"]),
+    "C02": dict(focus=["kv"], classes=["kv"], profiles=["mixed", "binary", "layers", "fanout", "drain", "long", "splitpoint"]),
     "C03": dict(focus=["scan"], classes=["scan"], profiles=["layers", "mixed", "binary", "fanout", "long"]),
     "C05": dict(focus=["scannv", "getnv", "dump", "phantom"], classes=["scannv", "getnv", "phantom"], profiles=["layers", "mixed", "fanout", "binary"]),
-    "C08": dict(focus=["dump", "walker"], classes=["walker", "kv", "scan", "iscan"], profiles=["fanout", "drain", "layers", "mixed", "binary"]),
+    "C08": dict(focus=["dump", "walker"], classes=["walker", "kv", "scan", "iscan"], profiles=["fanout", "drain", "layers", "mixed", "binary", "splitpoint"]),
     "C10": dict(focus=["iscan"], classes=["iscan"], profiles=["layers", "mixed", "binary", "fanout", "long"]),
     "C11": dict(focus=["balance"], classes=["balance"], profiles=["mixed", "drain", "layers", "long", "cycles"]),
     "C16": dict(focus=["session", "storage", "balance"], classes=["cycle", "session", "storage", "balance", "kv"], profiles=["cycles"]),
     "C12": dict(focus=["putinfo", "dump", "vchg"], classes=["vchg"], profiles=["fanout", "layers", "mixed", "drain"]),
     "C13": dict(focus=["storage"], classes=["storage"], profiles=["mixed", "binary"]),
     "C20": dict(focus=["mem", "dump"], classes=["mem"], profiles=["fanout", "layers", "mixed", "long", "drain"]),
+    # the comparison sites of C18 that only run inside a split (side decision, separator choice)
+    "C18": dict(focus=["kv", "dump", "walker"], classes=["kv", "scan", "walker"], profiles=["splitpoint"]),
 }
 
 # concurrent properties: workload kinds for the scheduler harness and the failure classes of
@@ -52,6 +54,7 @@ SCHED = {
     "C10": dict(kinds=["cursor", "reuse"], classes=["nullvalue", "linearizability", "order", "status"]),
     "C08": dict(kinds=["split", "point"], classes=["structure", "ledger"]),
     "C13": dict(kinds=["storage"], classes=["storage", "structure", "ledger", "progress"]),
+    "C15": dict(kinds=["overwrite"], classes=["nullvalue", "linearizability", "status"]),
 }
 
 ASSUME_SCHED = [
@@ -128,6 +131,25 @@ def check_unit(prop, tier, seed):
                     "first_differences": diffs[:10],
                     "replay_cmd": "VERIF_SEED=%d %s %s %s | %s unit" % (seed, binary, spec["what"], scale, vlib.YAKMODEL)})
                 nviol, found = len(diffs), True
+    if prop in SEQ:
+        cov3, fails3 = seq_run(prop, tier, seed)
+        extra["sequences"] = cov3
+        for i, f in enumerate(fails3[:3]):
+            nviol += 1
+            path = vlib.write_replay(prop, seed, 200 + i, f["replay"])
+            if replay is None:
+                replay, found = path, f["found"]
+    if prop in SCHED:
+        cov2, fails2 = sched_run(prop, tier, seed)
+        extra.update(cov2)
+        for i, f in enumerate(fails2[:3]):
+            nviol += 1
+            path = vlib.write_replay(prop, seed, 100 + i, {
+                "property": prop, "kind": f["kind"], "detail": f["detail"], "workload": f.get("workload", ""),
+                "schedule": f.get("schedule", []), "pre": f.get("pre", {}),
+                "replay_cmd": "python3 tools/check.py %s --replay <this file>" % prop})
+            if replay is None:
+                replay, found = path, f.get("found", True)
     if not lean["ok"] and replay is None:
         replay = vlib.write_replay(prop, seed, 1, {"broken": "proof obligations of YakProps/%s.lean" % prop, "problems": lean["problems"],
                                                    "searched": "unit grid compared equal to the model on %d calls" % extra.get("evaluations", 0)})
@@ -151,6 +173,9 @@ def seq_plan(prop, tier, seed):
     for p in spec["profiles"]:
         # the slow profiles (deep layer chains, long drains) get fewer sequences
         n = per if p not in ("long", "drain") else max(2, per // 3)
+        if p == "splitpoint":
+            n = per * 5   # short sequences; the interesting case is one cell of a small product
+
         for i in range(n):
             plan.append((p, seed * 1000 + i, ops))
     if tier == "thorough":
@@ -158,16 +183,12 @@ def seq_plan(prop, tier, seed):
     return plan
 
 
-def check_seq(prop, tier, seed, replay_path=None, extra_sched=False):
-    t0 = time.time()
+def seq_run(prop, tier, seed, replay_path=None):
+    """sequential part: returns (coverage dict, list of failure dicts {kind, found, replay, known?})"""
     spec = SEQ[prop]
-    lean = lean_part(prop, tier)
     binary, err = vlib.build_harness("seqdrv", seqeng.SEQ_DEFINES)
     if binary is None:
-        path = vlib.write_replay(prop, seed, 0, {"broken": "harness build", "detail": err})
-        vlib.write_evidence(prop, tier, seed, "proof", proof_coverage(prop, lean, {"evaluations": 0}), ASSUME_SEQ, time.time() - t0, 1)
-        violation(prop, path, False)
-        return 1
+        return {"evaluations": 0}, [{"found": False, "replay": {"broken": "harness build", "detail": err}}]
     kf = vlib.known_findings()
     cfg = "fixed"
     if replay_path:
@@ -180,10 +201,11 @@ def check_seq(prop, tier, seed, replay_path=None, extra_sched=False):
             for fn in sorted(f for f in os.listdir(cdir) if f.endswith(".txt")):
                 corpus.append(("corpus:" + fn, 0, open(os.path.join(cdir, fn)).read().splitlines()))
         cases = corpus + [(p, s, seqeng.gen_ops(s, p, n)) for (p, s, n) in seq_plan(prop, tier, seed)]
+    classes = spec["classes"] + ["walker"] if prop == "C08" else spec["classes"]
 
     def one(c):
         name, s, ops = c
-        r = seqeng.run_case(binary, ops, cfg, spec["focus"], spec["classes"] + ["walker"] if prop == "C08" else spec["classes"])
+        r = seqeng.run_case(binary, ops, cfg, spec["focus"], classes)
         r["name"], r["seed"], r["ops"] = name, s, ops
         return r
 
@@ -206,16 +228,16 @@ def check_seq(prop, tier, seed, replay_path=None, extra_sched=False):
         "reference_checked_results": refagg,
         "sequences_nontrivial": nontrivial,
         "traces_validated_against_impl": len(results) - len(bad),
+        "profiles": sorted({r["name"] for r in results}),
     }
-    nviol = 0
-    rc = 0
+    fails = []
     printed = set()
     for i, r in enumerate(bad):
         kind = r["kind"]
         ops = r["ops"]
         if kind in ("oracle", "model") and len(ops) > 6:
-            ops = seqeng.shrink(binary, ops, cfg, spec["focus"], spec["classes"], kind, budget_s=60 if tier == "quick" else 240)
-            rr = seqeng.run_case(binary, ops, cfg, spec["focus"], spec["classes"])
+            ops = seqeng.shrink(binary, ops, cfg, spec["focus"], classes, kind, budget_s=60 if tier == "quick" else 240)
+            rr = seqeng.run_case(binary, ops, cfg, spec["focus"], classes)
             detail = rr["detail"] or r["detail"]
         else:
             detail = r["detail"]
@@ -227,17 +249,31 @@ def check_seq(prop, tier, seed, replay_path=None, extra_sched=False):
                 print("KNOWN-FINDING: property=%s %s" % (prop, known[0].get("what", sig)))
                 printed.add(sig)
             continue
-        nviol += 1
-        path = vlib.write_replay(prop, seed, i, {
+        fails.append({"found": found, "replay": {
             "property": prop, "kind": {"oracle": "the implementation's answer contradicts the property (reference oracle)",
                                         "model": "correspondence broken: implementation and Lean model disagree; the reference oracle did not find a failing input",
                                         "crash": "the harness crashed or timed out on this input (sanitizer report or abort)"}[kind],
             "detail": detail, "signature": sig, "generator": [r["name"], r["seed"]], "ops": ops,
             "theorems_depending_on_this_correspondence": "YakProps/%s.lean" % prop,
-            "replay_cmd": "python3 tools/check.py %s --replay <this file>" % prop})
+            "replay_cmd": "python3 tools/check.py %s --replay <this file>" % prop}})
+    return extra, fails
+
+
+def check_seq(prop, tier, seed, replay_path=None, extra_sched=False):
+    t0 = time.time()
+    lean = lean_part(prop, tier)
+    kf = vlib.known_findings()
+    printed = set()
+    extra, sfails = seq_run(prop, tier, seed, replay_path)
+    nviol = 0
+    rc = 0
+    for i, f in enumerate(sfails):
+        nviol += 1
+        path = vlib.write_replay(prop, seed, i, f["replay"])
         if rc == 0:
-            violation(prop, path, found)
+            violation(prop, path, f["found"])
         rc = 1
+    nresults = extra.get("evaluations", 0)
     if extra_sched and prop in SCHED:
         cov2, fails2 = sched_run(prop, tier, seed)
         extra.update(cov2)
@@ -260,13 +296,13 @@ def check_seq(prop, tier, seed, replay_path=None, extra_sched=False):
     if not lean["ok"]:
         nviol += 1
         path = vlib.write_replay(prop, seed, 900, {"broken": "proof obligations of YakProps/%s.lean" % prop, "problems": lean["problems"],
-                                                   "searched": "%d sequences, none failed" % len(results) if rc == 0 else "see other replays"})
+                                                   "searched": "%d sequences, none failed" % nresults if rc == 0 else "see other replays"})
         if rc == 0:
             violation(prop, path, False)
         rc = 1
     vlib.write_evidence(prop, tier, seed, "proof", proof_coverage(prop, lean, extra), ASSUME_SEQ + (ASSUME_SCHED if extra_sched else []), time.time() - t0, nviol)
     if rc == 0:
-        print("OK %s: %d/%d theorems; %d sequences agree with model and reference" % (prop, lean["discharged"], lean["obligations"], len(results)))
+        print("OK %s: %d/%d theorems; %d sequences agree with model and reference" % (prop, lean["discharged"], lean["obligations"], nresults))
     return rc
 
 
@@ -511,6 +547,10 @@ def main():
     ap.add_argument("--replay")
     a = ap.parse_args()
     seed = int(os.environ.get("VERIF_SEED", "1"))
+    if a.replay and a.prop in SCHED and "workload" in json.load(open(a.replay)):
+        sys.exit(check_sched(a.prop, a.tier, seed, a.replay))
+    if a.replay and a.prop in SEQ and "ops" in json.load(open(a.replay)):
+        sys.exit(check_seq(a.prop, a.tier, seed, a.replay))
     if a.prop in UNIT:
         sys.exit(check_unit(a.prop, a.tier, seed))
     if a.prop == "C14":
